@@ -122,7 +122,7 @@ def run_norm(W, cfg):
         dx = (W.real('dxr', pos=True), W.real('dxc', pos=True))
         N = (3, 2)
         du = (lam * f / (N[0] * dx[0]), lam * f / (N[1] * dx[1]))
-        w = lt.Wavefront(lam) * lt.Pupil(amplitude=An, pixelscale=dx, focal_length=f)
+        w = lt.Wavefront(lam) * lt.Pupil(amplitude=An, pixelscale=dx, focal_length=f, mask=rnp.ones(shp, dtype=int))
         inten = lt.propagate_dft(w, pixelscale=du, shape=N, oversample=1).intensity
         W.ob('image total = p', W.sum(inten[i, j] for i in range(N[0]) for j in range(N[1])), p)
         return
